@@ -207,6 +207,16 @@ def run(ctx):
                       {"kind": "failing-input", "stream": "relate-grid", "A": a, "B": b, "A_wkt": gtok.wkt(a), "B_wkt": gtok.wkt(b),
                        "verdict": got, "signature": sig}, signature=sig)
     corr["relate-grid"]["skipped"] = skipped
+    # ---- (3) the oracle itself against the expected matrices written by hand in the repository's XML suites
+    rc, out = verif.sh([os.path.join(verif.ROOT, "bin", "xmlrelate-crosscheck")], timeout=1800)
+    try:
+        xr = json.load(open(os.path.join(verif.BUILD, "work", "xmlrelate.json")))
+    except Exception:
+        xr = {"error": out[-500:]}
+    corr["oracle-vs-xml-suites"] = xr
+    if rc != 0:
+        ctx.violation("the reference oracle disagrees with a hand-written expected matrix of tests/xmltester (or the cross-check could not run)",
+                      {"kind": "tie-broken", "correspondence": "oracle-vs-xml-suites", "output": out[-3000:]}, nofail=True)
     ctx.cov["support_correspondence"] = corr
     if not proved:
         lf = getattr(ctx, "lean_failure", None) or {}
